@@ -157,6 +157,8 @@ fixed("C07", "cf1eb8d", "CUR / PCov-CUR handed the absolute tolerance 1e-12 to X
 
 fixed("C08", "9596237", "VoronoiFPS._init_greedy_search reset vlocation_of_idx and dSL_ before it validated full_fraction / n_trial_calculation: after a cold refit that was refused for an illegal switching point the earlier selection was kept but its tessellation was gone, and the next legal warm start pruned with stale cells and re-selected points at distance 0 (20 of 20 clustered clouds: fit(8), refused fit with full_fraction=2.0, warm start to 30 differs from the cold fit / from FPS); reported as a side observation by a round-7 sub-agent, confirmed on the unchanged tree")
 
+fixed("C08", "0e32956", "GreedySelector._get_best_new_selection stored first_score_ only while a score threshold was active: a relative threshold switched on before a warm start was measured against the first score of the continuation, not against the score of the first selection (the documented reference), so fit(1) -> relative threshold 0.825 -> fit(10, warm_start=True) stopped after 1-2 selections although the single cold fit with the same threshold never reaches it (sample CUR k=2, scores 0.31 0.35 0.28 0.32 0.53 ...: CUR scores are not monotone); found when C08 gained relative thresholds just below the smallest score ratio of the cold fit (round 7)")
+
 # ------------------------------------------------------------------ C15
 fixed("C15", "d67ecc1", "periodic_pairwise_euclidean_distances(list-of-lists, cell_length=...) raised AttributeError: the dimension check read X.shape before the documented array-like input was validated")
 
